@@ -691,16 +691,10 @@ func checkEvents(o *Observed) []Finding {
 		}
 	}
 	if o.DeathFree {
-		// every persisted change whose request was answered is published at least once
-		answered := map[string]bool{}
-		for _, r := range o.Recs {
-			if r.Res != nil && r.Res.OK && !r.Op.DryRun {
-				answered[r.Op.Tag] = true
-			}
-		}
+		// every persisted change is published at least once (by quiescence every request has returned)
 		for i, l := range o.Logs {
-			if !published[i] && answered[logTag(l)] {
-				out = append(out, Finding{"persisted-change-not-published:" + logKind(l), fmt.Sprintf("log %d (%s, request %s) was persisted and acknowledged but no event describes it", i, l.Type, logTag(l))})
+			if !published[i] {
+				out = append(out, Finding{"persisted-change-not-published:" + logKind(l), fmt.Sprintf("log %d (%s, request %s) was persisted but no event describes it", i, l.Type, logTag(l))})
 			}
 		}
 	}
